@@ -42,6 +42,9 @@ def length_table(mod, callee):
     return _TAB[callee]
 
 
+_FIELD_BITS = {}
+
+
 def role(fn, mod, o, depth=0, seen=None):
     """what kind of quantity is this value"""
     seen = seen or set()
@@ -66,6 +69,7 @@ def role(fn, mod, o, depth=0, seen=None):
                     off = st["fields"][g["field"]["field"]]["off"]
                     for m in di["members"]:
                         if m["off"] == off:
+                            _FIELD_BITS[m["name"]] = max(_FIELD_BITS.get(m["name"], 0), i["size"] * 8)      # widest load of a member of this name
                             return ("field", m["name"])
                 elif st:
                     # anonymous struct (e.g. a local record type): identify the member by its position
@@ -82,7 +86,9 @@ def role(fn, mod, o, depth=0, seen=None):
         rs = set()
         for inc in i["incoming"]:
             r = role(fn, mod, inc["v"], depth + 1, seen)
-            if r is not None: rs.add(r)
+            if r is None: continue
+            if r[0] == "mixed": rs |= set(r[1:])              # a merge of merges is one merge (rotated loops, nested ifs)
+            else: rs.add(r)
         rs2 = {r for r in rs if r[0] not in ("const",)}
         if not rs2: return ("counter",)                  # only constants and itself (+1): a run length / ordinal
         if len(rs2) == 1: return next(iter(rs2))
@@ -92,7 +98,11 @@ def role(fn, mod, o, depth=0, seen=None):
         if b["k"] == "int": return role(fn, mod, a, depth + 1, seen)
         return ("arith",)
     if i.op == "select":
-        rs = {role(fn, mod, i.ops[1], depth + 1, seen), role(fn, mod, i.ops[2], depth + 1, seen)} - {None}
+        rs0 = {role(fn, mod, i.ops[1], depth + 1, seen), role(fn, mod, i.ops[2], depth + 1, seen)} - {None}
+        rs = set()
+        for r in rs0:
+            if r[0] == "mixed": rs |= set(r[1:])
+            else: rs.add(r)
         return next(iter(rs)) if len(rs) == 1 else ("mixed",) + tuple(sorted(rs))
     if i.op == "call": return ("call", i.get("callee"))
     return ("other",)
@@ -244,7 +254,7 @@ def match_terms(pred, enc, exact):
     pe -= common; en -= common
     # a constant at least as large as anything the measured quantity can hold covers one encoder term of the same table
     cv_of = lambda r: (1 << 64) - 1 if r[0] == "const-max" else r[1]
-    bits_of = lambda e: e[1][2] if e[1][0] == "member" else 64
+    bits_of = lambda e: e[1][2] if e[1][0] == "member" else (_FIELD_BITS.get(e[1][1], 64) if e[1][0] == "field" else 64)
     for t in sorted([t for t in pe if t[1][0] in ("const-max", "const")], key=lambda t: cv_of(t[1])):      # smallest constants first
         tab, r, al = t
         if al: continue
@@ -254,3 +264,32 @@ def match_terms(pred, enc, exact):
             en.discard(e); pe.discard(t)
     if not exact: pe = set()
     return en, {t for t in pe if t[1][0] not in ("const-max",)}
+
+
+def paired_terms(mod, pf, ef, cfg, exact):
+    """size terms of a predictor and of the encoder it describes, and what does not match.  When the plain reading does not match (or
+    finds nothing) and either function has been split into file-local helpers (e.g. cursor-returning ones), the comparison is repeated
+    with those helpers inlined; the inlined reading is only used when it matches completely, otherwise the plain reading is reported.
+    Returns (predictor terms, encoder terms, uncovered, unexplained, note)."""
+    from .common import with_helpers_inlined
+    pt, _ = size_terms(pf, mod, "size"); et, _ = size_terms(ef, mod, "cursor")
+    unc, unexp = match_terms(pt, et, exact) if pt and et else (set(), set())
+    if pt and et and not unc and not unexp: return pt, et, unc, unexp, None
+    for which in ("encoder", "predictor", "both"):
+        m2p = m2e = None; pf2, ef2 = pf, ef; mp, me = mod, mod
+        if which in ("encoder", "both"):
+            me, ef2 = with_helpers_inlined(mod, ef, cfg)
+            if me is None: continue
+        if which in ("predictor", "both"):
+            mp, pf2 = with_helpers_inlined(mod, pf, cfg)
+            if mp is None: continue
+        global _TAB
+        saved = _TAB; _TAB = {}
+        try:
+            pt2, _ = size_terms(pf2, mp, "size"); et2, _ = size_terms(ef2, me, "cursor")
+        finally:
+            _TAB = saved
+        if pt2 and et2:
+            u2, x2 = match_terms(pt2, et2, exact)
+            if not u2 and not x2: return pt2, et2, u2, x2, "%s read with its file-local helpers inlined" % which
+    return pt, et, unc, unexp, None
